@@ -201,6 +201,7 @@ func runExt(cfg *types.Chain33Config, blocks []*types.Block, in extIn) (out extO
 			fmt.Fprintf(os.Stderr, "DBG accepted=%d evs=%+v steps=%+v\n", accepted, in.Evs, out.Steps)
 		}
 		if accepted >= 2 {
+			leakedNodes++
 			// the second accepted choice parks its handler on the finalizer's health channel
 			// (no health check runs on a node without a configured finalizer) and
 			// BlockChain.Close would wait for it forever: leave this node open.
@@ -567,20 +568,23 @@ func finSafe(t treeSpec, evs []extEv) bool {
 	return true
 }
 
-// genFill: the three deepest trunk blocks and one unconnected block wait in the pool; 10240
-// more unconnected blocks push the oldest out one by one; the trunk arrives; the dropped blocks
-// are delivered again.
+// genFill: block 2 waits for block 1 and is connected by it while oldestOrphan still points to
+// it (stale); the three deepest trunk blocks and an unconnected block wait in the pool; unconnected
+// blocks fill it to 10240; the next ones overflow: the first removal hits the stale pointer
+// (nothing leaves, the pool is over its limit from then on), the following push out the oldest
+// one by one (an unconnected block, the trunk tip, its parent); the trunk arrives; the dropped
+// blocks are delivered again.
 func genFill(t treeSpec, trunk int) []extEv {
 	evs := []extEv{
-		{K: "D", Tick: 0, Id: trunk}, {K: "D", Tick: 0, Id: trunk - 1},
-		{K: "D", Tick: 0, Id: junkBase}, {K: "D", Tick: 0, Id: trunk - 2},
-		// the pool holds 4; 10236 more fill it; the next 3 each push the oldest out
+		{K: "D", Tick: 0, Id: 2}, {K: "D", Tick: 0, Id: junkBase}, {K: "D", Tick: 0, Id: 1},
+		{K: "D", Tick: 0, Id: trunk}, {K: "D", Tick: 0, Id: trunk - 1}, {K: "D", Tick: 0, Id: trunk - 2},
 		{K: "J", Tick: 0, Id: junkBase + 1, N: orphanCap - 4},
-		{K: "D", Tick: 0, Id: junkBase + 20000}, // drops the first waiting block (trunk tip)
-		{K: "D", Tick: 3, Id: junkBase + 20001}, // drops trunk-1
-		{K: "D", Tick: 3, Id: junkBase + 20002}, // drops the first unconnected block
+		{K: "D", Tick: 0, Id: junkBase + 20000}, // overflow, stale pointer: nothing leaves
+		{K: "D", Tick: 3, Id: junkBase + 20001}, // drops the first unconnected block
+		{K: "D", Tick: 3, Id: junkBase + 20002}, // drops the trunk tip
+		{K: "D", Tick: 3, Id: junkBase + 20003}, // drops its parent
 	}
-	for i := 1; i <= trunk-3; i++ {
+	for i := 3; i <= trunk-3; i++ {
 		evs = append(evs, extEv{K: "D", Tick: 3, Id: i})
 	}
 	// trunk-2 was still waiting and is connected by the cascade; the two dropped ones are not
@@ -613,6 +617,27 @@ func extNontrivial(in extIn, out extOut) bool {
 		}
 	}
 	return false
+}
+
+var leakedNodes int
+
+const maxLeaked = 60
+
+// oneFinalize keeps only the first finalize event that names a tree block at its height.
+func oneFinalize(t treeSpec, evs []extEv) []extEv {
+	hs := heightsOf(t)
+	var out []extEv
+	seen := false
+	for _, e := range evs {
+		if e.K == "F" && e.Id != unknownID && int64(hs[e.Id]) == e.H {
+			if seen {
+				continue
+			}
+			seen = true
+		}
+		out = append(out, e)
+	}
+	return out
 }
 
 func emitExt(o *hlib.Out, f *factory, blocks []*types.Block, in extIn) {
@@ -747,6 +772,11 @@ func extStreams(o *hlib.Out, f *factory, r *hlib.Rng, thorough bool, over func()
 			blocks = f.build(t)
 		}
 		evs := genFinalize(r, t, trunk, forkAt, side, short, k%3 == 0)
+		if leakedNodes >= maxLeaked {
+			// a node with two accepted choices cannot be closed (see runExt): keep at most one
+			// finalize event that can be accepted per run from here on
+			evs = oneFinalize(t, evs)
+		}
 		kind := "ext/finalize-any"
 		if finSafe(t, evs) {
 			kind = "ext/finalize-guarded"
